@@ -6,6 +6,8 @@ mod c06;
 mod c08;
 mod c09;
 mod c10;
+mod c11;
+mod crash;
 mod c12;
 mod c15;
 mod cluster;
@@ -20,11 +22,19 @@ fn main() {
         eprintln!("usage: nunverif <property|selftest> <quick|thorough> [args]");
         std::process::exit(64);
     }
-    if args[1] != "load-probe" && args[1] != "C12-child" {
+    if !["load-probe", "C12-child", "crash-child", "c16-child"].contains(&args[1].as_str()) {
         common::init_default_dir();
     }
     let tier = args.get(2).map(|s| s.as_str()).unwrap_or("quick");
-    let code = match args[1].as_str() {
+    let code = std::panic::catch_unwind(|| run(&args, tier)).unwrap_or_else(|e| {
+        println!("INCONCLUSIVE property={} reason=harness error: {}", args[1], common::panic_msg(&e));
+        2
+    });
+    std::process::exit(code);
+}
+
+fn run(args: &[String], tier: &str) -> i32 {
+    match args[1].as_str() {
         "selftest" => selftest::run(),
         "C01" => c01::run(tier),
         "C02" => c02::run(tier),
@@ -33,6 +43,8 @@ fn main() {
         "C08" => c08::run(tier),
         "C09" => c09::run(tier),
         "C10" => c10::run(tier),
+        "C11" => c11::run(tier),
+        "crash-child" => crash::c11_child(&args),
         "C12" => c12::run(tier),
         "C12-child" => c12::child(&args),
         "C15" => c15::run(tier),
@@ -43,6 +55,5 @@ fn main() {
             eprintln!("unknown sub-command {}", other);
             64
         }
-    };
-    std::process::exit(code);
+    }
 }
